@@ -139,17 +139,16 @@ class ProxyProtocolV1(object):
         try:
             packed = socket.inet_pton(addr_family, ip_string.decode('ascii'))
             return socket.inet_ntop(addr_family, packed)
-        except (UnicodeDecodeError, socket.error):
+        except (ValueError, socket.error):
             msg = 'Invalid proxy protocol {0} IP format'.format(which)
             raise AssertionError(msg)
 
     @classmethod
     def __get_pp_port(cls, port_string, which):
-        try:
-            port_num = int(port_string)
-        except ValueError:
+        if not port_string.isdigit():
             msg = 'Invalid proxy protocol {0} port format'.format(which)
             raise AssertionError(msg)
+        port_num = int(port_string)
         assert port_num >= 0 and port_num <= 65535, \
             'Proxy protocol {0} port out of range'.format(which)
         return port_num
@@ -232,8 +231,12 @@ class ProxyProtocolV2(object):
             'Invalid proxy protocol v2 signature'
         assert data[12] & 0xf0 == 0x20, 'Invalid proxy protocol version'
         command = cls.__commands.get(data[12] & 0x0f)
+        assert command is not None, 'Invalid proxy protocol command'
         family = cls.__families.get(data[13] & 0xf0)
         protocol = cls.__protocols.get(data[13] & 0x0f)
+        assert command == 'local' or \
+            (data[13] & 0xf0 <= 0x30 and data[13] & 0x0f <= 0x02), \
+            'Invalid proxy protocol address family or transport'
         addr_len = struct.unpack('!H', data[14:16])[0]
         return command, family, protocol, addr_len
 
@@ -264,10 +267,9 @@ class ProxyProtocolV2(object):
             data = cls.__read_pp_data(sock, 16, initial)
             cmd, family, _, addr_len = cls.__parse_pp_data(data)
             addr_data = cls.__read_pp_data(sock, addr_len, b'')
-            ret = cls.__parse_pp_addresses(family, addr_data)
             if cmd == 'local':
                 raise LocalConnection()
-            return ret
+            return cls.__parse_pp_addresses(family, addr_data)
         except struct.error:
             raise AssertionError('Invalid proxy protocol data')
 
